@@ -78,6 +78,16 @@ def gen_script_op(rng, root, depth=0):
                 op['opts'] = gen_good(rng)
                 op['opts'].pop('raw', None)
             return {'s': 'edit', 'op': op}
+    if r < 0.58:
+        # a pure read with and without per-call options on the same (unmodified) node: "an option passed to a call
+        # affects only that call" - the answer must be the one a fresh identical tree gives when asked alone
+        nodes = [t for t in O.all_nodes(tree) if isinstance(t[1], (ast.stmt, ast.expr)) and not isinstance(t[1], (ast.Slice, ast.Starred))]
+        if nodes:
+            path = rng.choice(nodes)[0]
+            o = {}
+            if rng.random() < 0.6:
+                o['docstr'] = rng.choice([True, False, 'strict'])
+            return {'s': 'own_src', 'path': [list(p) for p in path], 'opts': O.enc_opts(o), 'twice': rng.random() < 0.5}
     if r < 0.70:
         nodes = O.all_nodes(tree)
         if not nodes:
@@ -205,6 +215,24 @@ class Worker:
                     self.model[k] = entry[k]
             elif rec[0] == 'block_rejected':
                 self.model = entry
+        elif s == 'own_src':
+            o = O.dec_opts(op['opts'])
+            try:
+                f = O.resolve_f(self.root, op['path'])
+                r = f.own_src(**o)
+                if op.get('twice'):  # and once more without the per-call option, on the same unmodified node
+                    r = (r, f.own_src())
+                fresh = O.resolve_f(fst.FST(self.root.src, 'exec'), op['path'])
+                want = fresh.own_src(**o)
+                if op.get('twice'):
+                    want = (want, O.resolve_f(fst.FST(self.root.src, 'exec'), op['path']).own_src())
+                if r != want and self.model_err is None:
+                    self.model_err = f'own_src({o!r}) of {op["path"]!r} depends on earlier calls: live={r!r} fresh tree asked alone={want!r}'
+                rec = ('own_src', O.result_repr(r))
+            except O.Skip:
+                rec = ('own_src_skip', None)
+            except Exception as e:
+                rec = ('own_src_exc', O.exc_repr(e))
         elif s == 'copy':
             o = O.dec_opts(op['opts'])
             if self.explicit:
